@@ -4,7 +4,8 @@ import Cx.Spec.Utf8
   into a byte-level automaton:
 
     compileCharClass → (all ASCII: one ByteRange / one Sparse state)
-                     → compileUnicodeClass → (≤ 256 runes: alternation of literals, each through `encodeRune`)
+                     → compileUnicodeClass → (≤ 256 runes: alternation of literals, each through `encodeRune`; surrogate
+                                              members are skipped, no member left: `compileNoMatch`)
                                            → compileUnicodeClassLarge → compileUTF8Range → compileUTF8{1,2,3,4}ByteRange
                                                                       → buildUTF8NonASCIIBranches (+ 0x80–0xFF)
 
@@ -207,6 +208,9 @@ def compileUnicodeClassLarge (ranges : List (Nat × Nat)) : List Seq :=
   ++ (if coversAllNonASCII non then buildUTF8NonASCIIBranches ++ [[(0x80, 0xFF)]]
       else non.flatMap fun rng => compileUTF8Range rng.1 rng.2)
 
+/-- compile.go `isSurrogate` -/
+def isSurrogate (r : Nat) : Bool := decide (r ≥ 0xD800) && decide (r ≤ 0xDFFF)
+
 /-- the `totalChars` loop of `compileUnicodeClass` with its early exit -/
 def exceeds256 : List (Nat × Nat) → Nat → Bool
   | [], _ => false
@@ -218,8 +222,11 @@ def exceeds256 : List (Nat × Nat) → Nat → Bool
 def compileUnicodeClass (ranges : List (Nat × Nat)) : List Seq :=
   if ranges = [] then [] else
   if exceeds256 ranges 0 then compileUnicodeClassLarge ranges else
-  -- alternation of one literal per rune; a literal is a chain of single-byte ranges (compileCaseSensitiveRune)
-  ranges.flatMap fun rng => forRange rng.1 rng.2 fun r => [(encodeRune r).map fun b => (b, b)]
+  -- alternation of one literal per rune, surrogates skipped (`if isSurrogate(r) { continue }`); a literal is a chain of
+  -- single-byte ranges (compileCaseSensitiveRune).  No alternative left (`len(alts) == 0`): `compileNoMatch`, a Fail
+  -- state, i.e. no sequence at all — which is what the empty `flatMap` is.
+  ranges.flatMap fun rng => forRange rng.1 rng.2 fun r =>
+    if isSurrogate r then [] else [(encodeRune r).map fun b => (b, b)]
 
 /-- `compileCharClass` -/
 def compileCharClass (ranges : List (Nat × Nat)) : List Seq :=
@@ -233,6 +240,8 @@ def classSeqs (ranges : List (Nat × Nat)) : List Seq := compileCharClass ranges
 
 /-! ### sanity examples -/
 example : bitClear 0x12345 0xFFF = 0x12000 := by decide
+example : classSeqs [(0xD800, 0xD80F)] = [] := by decide
+example : classSeqs [(0xD7FF, 0xD800)] = [[(0xED, 0xED), (0x9F, 0x9F), (0xBF, 0xBF)]] := by decide
 example : utf8RangeSeqs 0xE9 0xE9 = [[(0xC3, 0xC3), (0xA9, 0xA9)]] := by decide
 example : utf8RangeSeqs 0x10000 0x10FFFF =
     [[(0xF0, 0xF0), (0x90, 0xBF), (0x80, 0xBF), (0x80, 0xBF)], [(0xF1, 0xF3), (0x80, 0xBF), (0x80, 0xBF), (0x80, 0xBF)],
